@@ -16,6 +16,13 @@ if [[ "$SCHED_IDS" == *" $id "* ]]; then
 else
   go build -o "$bin" ./checks/$id 2> .work/build-$id.log || { cat .work/build-$id.log; echo "INFRA-ERROR: build of $id failed"; exit 2; }
 fi
+if [ "$id" = c04 ] && [ "$MODE" != replay ]; then
+  # sequential part: plain build (the files of /repo byte for byte), merged by the concurrent part
+  go build -o /verif/.work/bin/c04seq ./checks/c04seq 2> .work/build-c04seq.log || { cat .work/build-c04seq.log; echo "INFRA-ERROR: build of c04seq failed"; exit 2; }
+  rm -f /verif/.work/c04seq.json
+  VERIF_PARTIAL=/verif/.work/c04seq.json /verif/.work/bin/c04seq "$MODE" || { echo "INFRA-ERROR: c04seq failed"; exit 2; }
+  export VERIF_SEQ_PARTIAL=/verif/.work/c04seq.json
+fi
 if [ "$MODE" = replay ]; then
   VERIF_SEQ_REPLAY=${3:?file} VERIF_REPLAY=${3} exec "$bin" quick
 fi
